@@ -229,14 +229,10 @@ impl StreamAlphaNode {
                 WindowType::Sliding => {
                     let cutoff_time = current_time.saturating_sub(window_duration_ms);
 
-                    // Remove events older than cutoff
-                    while let Some(event) = self.events.front() {
-                        if event.metadata.timestamp < cutoff_time {
-                            self.events.pop_front();
-                        } else {
-                            break;
-                        }
-                    }
+                    // Remove events older than cutoff. Events are buffered in arrival order and a late
+                    // event may stand behind a newer one, so every event is examined, not just the front.
+                    self.events
+                        .retain(|event| event.metadata.timestamp >= cutoff_time);
                 }
                 WindowType::Tumbling => {
                     let window_start = (current_time / window_duration_ms) * window_duration_ms;
